@@ -19,4 +19,5 @@ REGISTRY = {
     'C06': e1props.c06,
     'C19': e1props.c19,
     'C15': e2props.c15,
+    'C02': e2props.c02,
 }
